@@ -2,9 +2,9 @@
    their definitions.  Statement file: each theorem is closed by [exact] of a
    lemma proved in theories/Misc, followed by Print Assumptions.
    Time values are Z nanoseconds since the Unix epoch (UTC); durations Z ns. *)
-From Coq Require Import List NArith ZArith QArith Qround Bool.
+From Coq Require Import List NArith ZArith QArith Qround Qreals Reals Bool.
 From LW Require Import Base.Outcome Misc.Gps Misc.GpsSpec Misc.GpsProofs
-  Misc.Airtime Misc.AirtimeSpec Misc.AirtimeProofs Misc.Eirp Misc.EirpProofs.
+  Misc.Airtime Misc.AirtimeSpec Misc.AirtimeProofs Misc.Eirp Misc.EirpProofs Misc.Sens Misc.SensProofs.
 From LWGen Require Import LeapGen EirpGen.
 Import ListNotations.
 Open Scope Z_scope.
@@ -139,6 +139,21 @@ Theorem C20_eirp_decode_all : forall idx, (idx < 256)%N ->
   eirp_value idx = match nth_error lorawan_eirp_table (N.to_nat idx) with Some v => Ok v | None => Err end.
 Proof. exact eirp_decode_all. Qed.
 Print Assumptions C20_eirp_decode_all.
+
+(* ---------------- sensitivity ---------------- *)
+(* sensitivity.go itself (float32, math.Log10) is not modelled; every observed value is judged by the
+   integer bracket sens_bracket (Corr/C20.v: CSens).  What the bracket means, over the real numbers:
+   an accepted value is within 0.1 dB of  -174 + 10 log10(BW) + NF + SNR. *)
+Theorem C20_sensitivity_bracket_sound : forall (bw : Z) (nfsnr o : Q),
+  sens_bracket bw nfsnr o = true ->
+  (0 < bw)%Z /\ (Rabs (Q2R o - (-174 + 10 * (ln (IZR bw) / ln 10) + Q2R nfsnr)) <= 1 / 10)%R.
+Proof. exact sens_bracket_sound. Qed.
+Print Assumptions C20_sensitivity_bracket_sound.
+
+(* non-vacuity of the bracket: it accepts the value for 125 kHz, NF 6, SNR -20 and refuses one 0.2 dB off *)
+Example C20_sensitivity_bracket_example :
+  sens_bracket 125000 (-14) (-1370309 # 10000) = true /\ sens_bracket 125000 (-14) (-1368309 # 10000) = false.
+Proof. split; [exact sens_bracket_accepts | exact sens_bracket_refuses]. Qed.
 
 (* non-vacuity: concrete inputs inside the hypotheses *)
 Example C20_example :
